@@ -1286,6 +1286,21 @@ func genSchema(L *loader) (string, any, []string) {
 		sb.WriteString(fmt.Sprintf("  (%q, %q)%s\n", fn, cond, sep))
 	}
 	sb.WriteString("]\n")
+	// ---- how the shared slice helpers size their result (append growth: one slot per
+	// element decoded; a pre-sizing from the claimed count shows up here)
+	sb.WriteString("\n/-- (helper, every statement / call in its body that creates or grows a slice, in source order) -/\ndef sliceGrowth : List (String × List String) := [\n")
+	for i, fn := range []string{"Decoder.ReadBytes", "DecodeSlice", "DecodeSliceFn", "DecodeSliceCast"} {
+		sites, err := g.sliceGrowth(coreMod + "/types." + fn)
+		if err != "" {
+			g.errs = append(g.errs, "schema slice growth "+fn+": "+err)
+		}
+		sep := ","
+		if i == 3 {
+			sep = ""
+		}
+		sb.WriteString(fmt.Sprintf("  (%q, %s)%s\n", fn, schLeanStrList(sites), sep))
+	}
+	sb.WriteString("]\n")
 	// ---- internal buffer sizes of Encoder / Decoder (value sizes that straddle them are
 	// exercised by the harness)
 	for _, tn := range []string{"Encoder", "Decoder"} {
@@ -1633,6 +1648,51 @@ func (g *schGen) prefixGuard(key string) (string, string) {
 	var cb strings.Builder
 	printer.Fprint(&cb, g.L.fset, is.Cond)
 	return cb.String(), ""
+}
+
+// sliceGrowth lists, in source order, what in the body of a decoding helper creates or
+// grows a slice: `var x []T` declarations, calls of make / append / new, calls into
+// package slices / bytes, and calls of generic helpers (delegation).
+func (g *schGen) sliceGrowth(key string) ([]string, string) {
+	fd := g.L.funcs[key]
+	if fd == nil || fd.Body == nil {
+		return nil, "function not found"
+	}
+	var out []string
+	render := func(n ast.Node) string {
+		var pb strings.Builder
+		printer.Fprint(&pb, g.L.fset, n)
+		return pb.String()
+	}
+	ast.Inspect(fd.Body, func(n ast.Node) bool {
+		switch x := n.(type) {
+		case *ast.DeclStmt:
+			if gd, ok := x.Decl.(*ast.GenDecl); ok && gd.Tok == token.VAR {
+				for _, sp := range gd.Specs {
+					if vs, ok := sp.(*ast.ValueSpec); ok {
+						if at, ok := vs.Type.(*ast.ArrayType); ok && at.Len == nil {
+							out = append(out, render(x))
+						}
+					}
+				}
+			}
+		case *ast.CallExpr:
+			switch f := x.Fun.(type) {
+			case *ast.Ident:
+				if f.Name == "make" || f.Name == "append" || f.Name == "new" {
+					out = append(out, render(x))
+				}
+			case *ast.SelectorExpr:
+				if id, ok := f.X.(*ast.Ident); ok && (id.Name == "slices" || id.Name == "bytes") {
+					out = append(out, render(x))
+				}
+			case *ast.IndexExpr, *ast.IndexListExpr:
+				out = append(out, render(x))
+			}
+		}
+		return true
+	})
+	return out, ""
 }
 
 // schFieldsTerm: like schFieldsExpr but one field per line
